@@ -20,7 +20,7 @@ CHECKS = {
          "Runtime monitoring of seeding/extraction/orientation: ~8e4 (quick) / ~4e6 (thorough) driver calls over static lengths 1..6, dynamic 0..6, non-square Jacobians (static, dynamic, mixed), partial Hessians (m,n), all n^3 index triples of third_partial_derivative_vec, element types f64, f32 and Dual64, outputs that are true constants; the documented manual route (from_re(x).derivative(), derivative1/2/3) bit for bit against the drivers.",
          "expected values from the tracked model (K=32); libm trusted", "DESIGN.md 3/C05"),
  "C06": ("differential / metamorphic monitors: bitwise invariance of every program node's real part under perturbed derivative parts, agreement with the same program on plain floats, comparison/predicate/selection tables against the float answers, branch-trace equality, float instances vs std",
-         "Runtime monitoring: ~7e5 (quick) / ~6e7 (thorough) observations over 42 types; perturbations include huge (1e300), tiny, zero and absent parts; comparison tables use equal / 1-ulp-apart / signed-zero / tiny / huge / NaN / infinite real parts on the field-compatible types; abs_diff_eq / relative_eq / ulps_eq with distinct tolerances and explicit max_ulps on operands k ulps apart; guarded programs record branch traces that must equal the float run's.",
+         "Runtime monitoring: ~7e5 (quick) / ~6e7 (thorough) observations over 42 types; perturbations include huge (1e300), tiny, zero and absent parts; comparison tables use equal / 1-ulp-apart / signed-zero / tiny / huge / NaN / infinite real parts on the field-compatible types; abs_diff_eq / relative_eq / ulps_eq with distinct tolerances, explicit max_ulps on operands k ulps apart, infinite / NaN operands and negative / NaN tolerances; predicates at +-0, +-inf, +-NaN on every type; real parts of every elementary function at the ends of its domain and far out; guarded programs record branch traces that must equal the float run's.",
          "single-float-operation nodes within 4 ulp of the float (0 observed), compositions within the tracked bound; signum(-0.0) excluded from float equality", "DESIGN.md 3/C06"),
  "C07": ("differential monitor on the vector-valued types: programs and compound-assignment histories run under all 2^k absent/explicit-zero representations of the zero parts of every input, node-by-node numerical identity; histories also against the non-assigning operators; direct monitor of the Derivative container (every operator x representation pair x shape vs explicit matrices, exact); drivers and conversions with absent vs explicit-zero constants",
          "Runtime monitoring: ~4e5 (quick) / ~2e7 (thorough) runs over 25 vector-valued types (static, dynamic, f32, nested); exhaustive 2^k enumeration per case for k <= 8; histories of up to 30 compound assignments starting from a constant accumulator; the container itself: 20 operator forms (by value / by reference / assigning, scalar, matrix product, tr_mul, unit seeds) x 10 representation pairs (absent, zeros, values, values with equal real parts) x 10 shapes (static, dynamic, empty) x float and Dual64 elements; jacobian/gradient/hessian/partial_hessian (static and dynamic) and is_in_subset/to_subset/try_convert with absent vs explicit-zero constants.",
@@ -41,10 +41,10 @@ CHECKS = {
          "Runtime monitoring: ~4e5 (quick) / ~3e7 (thorough) evaluations over 47 types (f32/f64, orders up to 6), 10 argument regions incl. denormals, both sides of the series switch, 10^-k, zeros of j_n, negative sweep.",
          "tolerance relative to |true part| plus the absolute level 1/max(|x|,1) with binomial growth per derivative; K=32 (max observed ratio ~10)", "DESIGN.md 3/C15"),
  "C11": ("differential monitors on the four field-compatible types: RealField constants vs the float constants (bitwise); every ComplexField/RealField method vs the generic dual operation it stands for (bitwise) and vs the float method on the real part; selection methods return an operand with its own parts; single-lane SimdValue round trips",
-         "Runtime monitoring: ~6e5 (quick) / ~4e7 (thorough) method observations over 18 instantiations (f32/f64, static 1..4, dynamic), 75 constants/methods/monitors incl. powf/powc/log with dual arguments, copysign with signed zeros, min/max ties, hypot with a zero-real argument, replace by/into constants (absent parts), unchecked SIMD variants.",
+         "Runtime monitoring: ~6e5 (quick) / ~4e7 (thorough) method observations over 18 instantiations (f32/f64, static 1..4, dynamic), 75 constants/methods/monitors incl. powf/powc/log with dual arguments, copysign with signed zeros, min/max ties, hypot with a zero-real argument, clamp on a bound and with NaN, argument / signum at +-0, try_sqrt at the edge of its domain, predicates with non-finite derivative parts, special constants (e, 2, 10) as variable bases / exponents, replace by/into constants (absent parts), unchecked SIMD variants.",
          "real part within 0 ulp of the float method for single float operations, stated ulps for quotients/powers; hypot also against the model", "DESIGN.md 3/C11"),
  "C13": ("behavioural conversion monitor (lossless widening, identity round trip, membership <=> checked narrowing, per-part rounding, float lift/extract, nalgebra convert/try_convert/cast) + sanitizer lanes for the memory clause: Miri (UB, uninitialised reads, OOB, leaks) and valgrind memcheck on a dedicated workload incl. heap-owning nested element types",
-         "Runtime monitoring + sanitizers: ~7e4 (quick) / ~7e6 (thorough) conversion observations over 27 type pairs, static dims 0..6 and dynamic 0..6, present/absent parts, non-symmetric storage; Miri 16 shards x 6 (quick) / 150 (thorough) workload cases, valgrind 8 x 150 / 16 x 4000 cases; a sanitizer report is a VIOLATION with the tool log as replay file.",
+         "Runtime monitoring + sanitizers: ~7e4 (quick) / ~7e6 (thorough) conversion observations over 27 type pairs, static dims 0..6 and dynamic 0..6, present/absent parts, non-symmetric storage; Miri 16 shards x 6 (quick) / 150 (thorough) workload cases, valgrind 8 x 150 / 16 x 4000 cases; the workload includes scalar and vector types over heap-owning inner numbers and identity conversions; float extraction at infinite / NaN / out-of-range real parts; a sanitizer report is a VIOLATION with the tool log as replay file.",
          "Miri cannot prove absence of UB on paths the workload does not drive; simba reports every finite f64 as member of f32", "DESIGN.md 3/C13"),
  "C16": ("event-stream monitor: a recording serde Serializer logs the call sequence of the derived Serialize impl (struct name, length, keys, leaf bits), checked against the documented part names and stored parts; a replaying Deserializer (map in order, map permuted, sequence) must restore every part bitwise; serde_json round trip on exactly representable values",
          "Runtime monitoring: ~3e4 (quick) / ~3e6 (thorough) streams over 24 scalar types and nestings (depth <= 3, f32/f64) with distinct exotic bit patterns per part (subnormals, -0.0, huge, tiny).",
@@ -53,14 +53,14 @@ CHECKS = {
          "Runtime monitoring: ~9e4 (quick) / ~4.5e6 (thorough) renderings over 45 types (scalar, vector static/dynamic with dimensions 0..4, nested), all presence patterns reached by random masks, distinct exotic values per storage slot, non-symmetric matrices, nested vector types, dynamically sized parts with 1001..1700 entries.",
          "matrix-shaped parts of nested element types are not driven; Python repr is compared with the Rust rendering under C17", "DESIGN.md 3/C18"),
  "C12": ("identity monitor: outputs of the crate's LU/Jacobi routines and of nalgebra's generic decompositions over dual scalars are plugged into the defining identities (A x = b, A A^-1 = I, cofactor determinant, A V = V diag(lambda), V^T V = I, ordering, L L^T = M, norm) evaluated part by part in the reference model algebra; singular real parts must be reported",
-         "Runtime monitoring: ~7e4 (quick) / ~3e6 (thorough) routine calls over sizes 1..6, condition numbers 1..100, five row orders (both permutation parities, ~800 distinct pivot-row sequences observed), 7 scalar types for the crate's routines and 5 field types for nalgebra, singular and hostile (reducible real part) classes, irreducible matrices with exact-zero entries, equal-diagonal tridiagonal matrices, power-of-two scalings (2^-60, 2^40).",
+         "Runtime monitoring: ~7e4 (quick) / ~3e6 (thorough) routine calls over sizes 1..6, condition numbers 1..100, five row orders (both permutation parities, ~800 distinct pivot-row sequences observed), 7 scalar types for the crate's routines and 5 field types for nalgebra, singular and hostile (reducible real part) classes, irreducible matrices with exact-zero entries, equal-diagonal tridiagonal matrices, power-of-two scalings (2^-60, 2^40), sizes 7..12 (one case in four), triangular real parts, uniform couplings, three memory layouts of the input, right-hand sides with zero real parts, hostile norm vectors.",
          "norm-wise tolerances K*n*kappa^min(order+1,3)*(order+1)^2*u (linear systems), K*n^2*(order+1)^2*u (eigen; 1e-9 for nalgebra whose own f64 residual is 2.5e-11); four listed findings K3-K6 (eigen decisions on real parts, in the crate's Jacobi routine and in nalgebra's symmetric_eigen)", "DESIGN.md 3/C12"),
  "C17": ("differential monitor across the CPython ABI: generated programs on the Python classes (operators, reflected operators, ** with int/float/dual, named methods, getters, repr, ndarray operands) and driver functions with Python callbacks, compared bit for bit with mirror functions that run the same program / driver directly on the Rust types inside the same extension module",
-         "Runtime monitoring: ~4e4 (quick) / ~2e6 (thorough) Python values compared bitwise (parts, presence, repr == to_string) over the 8 constructible classes and the vector classes seen inside driver callbacks (gradient/hessian n = 1..12 incl. the dynamic fallback, jacobian m x n, partial_hessian (m,n) incl. dynamic, all scalar drivers, third_partial_derivative_vec index patterns), exception propagation and documented TypeErrors; ndarray operands (float and object) of every shape and memory layout (C, Fortran, transposed, reversed, strided, 0-d, empty) with index-wise values, operand-untouched and result-is-new-object checks; ** with Python ints beyond i32; callbacks returning list / tuple / object ndarray; a Rust panic surfacing as PanicException is a violation.",
+         "Runtime monitoring: ~4e4 (quick) / ~2e6 (thorough) Python values compared bitwise (parts, presence, repr == to_string) over the 8 constructible classes and the vector classes seen inside driver callbacks (gradient/hessian n = 1..12 incl. the dynamic fallback, jacobian m x n, partial_hessian (m,n) incl. dynamic, all scalar drivers, third_partial_derivative_vec index patterns), exception propagation and documented TypeErrors; ndarray operands (float and object) of every shape and memory layout (C, Fortran, transposed, reversed, strided, 0-d, empty) with index-wise values, operand-untouched and result-is-new-object checks; ** with Python ints beyond i32; callbacks returning list / tuple / object ndarray; float operands equal to the real part, augmented assignment (aliases must keep their value), keyword calls of every driver, nested from_re; a Rust panic surfacing as PanicException is a violation.",
          "one interpreter (CPython 3.11, numpy 2.x); no memory-safety lane across FFI (Miri cannot cross it, valgrind on CPython is noise-dominated)", "DESIGN.md 3/C17"),
- "C01": ("reference-model monitor: every call of every elementary function on every type vs power-series Taylor composition, stratified random inputs incl. wide bands (1e-30..1e30, exponentials to +-700) guarded by 'every contributing term representable'; second oracle: mpmath at 50+ digits over the recorded event log",
+ "C01": ("reference-model monitor: every call of every elementary function on every type vs power-series Taylor composition, stratified random inputs incl. wide bands (1e-30..1e30, exponentials to +-700) guarded by 'every contributing term representable'; history independence (fresh threads in shuffled orders, eight threads at once, a 32-bit type calling first); second oracle: mpmath at 50+ digits over the recorded event log",
          "Runtime monitoring: the real functions are executed on ~3e5 (quick) / ~1e7 (thorough) generated operands over 51 type instantiations and every argument region; each result part is compared with an independent truncated-Taylor-algebra model within 32*u*sum|terms|. Holds on what was observed, not a proof.",
-         "trusts libm for g(x0); tolerance constant calibrated on the unchanged tree (max observed ratio < 15); operands for which a low power of |x| or 1/|x| leaves the float range are not monitored (DESIGN 7.7)", "DESIGN.md 3/C01, 7.7"),
+         "trusts libm for g(x0); tolerance constant calibrated on the unchanged tree (max observed ratio < 15); operands for which a low power of |x| or 1/|x| leaves the float range are not monitored (DESIGN 7.7); error scale: DESIGN 7.8", "DESIGN.md 3/C01, 7.7"),
 }
 NOT_YET = "check not built yet (work in progress in this session)"
 
